@@ -41,25 +41,25 @@ type fsSpecWorkload struct {
 }
 
 type fsModelFile struct {
-	state   string // reserved, closed, aborted, tombstoned, tainted
-	bytes   []byte
-	valid   bool // payload is a valid bloom file
-	busy    bool // an operation on it is in flight
-	owner   int  // writer whose CreateFile returned it
-	open    bool // its write cycle (CreateFile .. last Close/Abort of the script) is not over yet
+	state string // reserved, closed, aborted, tombstoned, tainted
+	bytes []byte
+	valid bool // payload is a valid bloom file
+	busy  bool // an operation on it is in flight
+	owner int  // writer whose CreateFile returned it
+	open  bool // its write cycle (CreateFile .. last Close/Abort of the script) is not over yet
 }
 
 type fsSpecState struct {
-	r      *Run
-	store  *bs.FileSystemDataStore
-	mu     sync.Mutex
-	model  map[string]*fsModelFile
-	valid  [][]byte // prebuilt valid bloom files
-	uniq   int
-	fin    int
-	creating int // CreateFile calls in flight (their reservation / temp file exist before they return)
-	tombing  map[string]int // TombstoneFile calls in flight per pointer
-	inflight map[string]int // operations in flight per pointer (any kind, any writer)
+	r        *Run
+	store    *bs.FileSystemDataStore
+	mu       sync.Mutex
+	model    map[string]*fsModelFile
+	valid    [][]byte // prebuilt valid bloom files
+	uniq     int
+	fin      int
+	creating int             // CreateFile calls in flight (their reservation / temp file exist before they return)
+	tombing  map[string]int  // TombstoneFile calls in flight per pointer
+	inflight map[string]int  // operations in flight per pointer (any kind, any writer)
 	racy     map[string]bool // two operations on the pointer overlapped at some time
 	// drawing: names an in-flight CreateFile has drawn (its reservation may exist) but whose
 	// pointer has not been returned yet, per pointer.
@@ -70,7 +70,7 @@ type fsSpecState struct {
 	// pointer are reported under their own kind.
 	stolen  map[string]bool
 	drawnBy map[int][]string
-	tombSeq map[string]int // TombstoneFile calls started so far, per pointer
+	tombSeq map[string]int  // TombstoneFile calls started so far, per pointer
 	orphan  map[string]bool // a failed CreateFile drew this name while faults were being injected
 }
 
@@ -559,21 +559,21 @@ type fsBatch struct {
 }
 
 type fsCrashState struct {
-	r        *Run
-	store    *bs.FileSystemDataStore
-	eng      *bs.BloomSearchEngine
-	cfg      bs.BloomSearchEngineConfig
-	mu       sync.Mutex
-	batches  []*fsBatch
-	known    map[string]bool
-	lastVer  uint64
-	images   int
-	merging  bool
+	r       *Run
+	store   *bs.FileSystemDataStore
+	eng     *bs.BloomSearchEngine
+	cfg     bs.BloomSearchEngineConfig
+	mu      sync.Mutex
+	batches []*fsBatch
+	known   map[string]bool
+	lastVer uint64
+	images  int
+	merging bool
 	// cleanupFailed: the last Merge reported ErrPostCommitCleanup (its source removals may not
 	// be durable and the caller was told so); cleared once every directory change is durable.
 	cleanupFailed bool
 	K             int
-	fin      bool
+	fin           bool
 }
 
 // recover opens a fresh store and engine over an image and returns the ids a match-all query
